@@ -56,6 +56,8 @@ def expected_maps(prof, tree, cfg):
     else:
         key_map = dict(km)
     vm = serial.resolve_value_map(cfg.get("value_map", True), tree, prof)
+    if cfg.get("value_map_dup") is not None:
+        vm = serial.with_duplicate(vm, cfg["value_map_dup"])  # (the header shows the caller's list as it was passed)
     if vm is True:
         value_map = {k: list(v) for k, v in cls.DEFAULT_VALUE_MAP.items()}
         kind_auto = prof.typed and "kind" not in value_map
